@@ -69,7 +69,7 @@ def parseCookie (s : String) : Option CookieHdr :=
 def parseBody (s : String) : Option Body :=
   if s == "-" then some (.form [])
   else if s.startsWith "f." then (parseItems (s.drop 2).toString).map .form
-  else if s.startsWith "o." then (unhexC (s.drop 2).toString).map (fun _ => .opaque)
+  else if s.startsWith "o." then (unhexC (s.drop 2).toString).map (fun _ => .raw)
   else none
 
 def parseReq (m a q k t b : String) : Option Req := do
@@ -121,7 +121,8 @@ def showItemsOut : ItemsOut → String
 def showLegacy : LegacyOut → String
   | .fwd f =>
     "fwd A=" ++ (match f.auth with | .same => "same" | .set v => hex v) ++
-    " Q=" ++ showItemsOut f.query ++ " B=" ++ showItemsOut f.body
+    " Q=" ++ showItemsOut f.query ++ " B=" ++ showItemsOut f.body ++
+    " K=" ++ (match f.cookie with | .same => "same" | .stripped => "stripped")
   | .err .salted => "err salted"
   | .err .other => "err other"
   | .panic => "panic"
@@ -150,11 +151,9 @@ def step (line : String) : String :=
     match parseReq m a q k t b with
     | some r =>
       "tokens " ++ hexList (requestTokens r) ++ " body " ++
-        (match bodyStage r with
-         | .skipped => "-"
-         | .failed => "err"
-         | .parsed ts _ => hexList ts
-         | .unmodelled => "unmodelled")
+        (match loaderBodyTokens r with
+         | some ts => hexList ts
+         | none => "err")
     | none => "bad-op"
   | ["legacy", rm, m, a, q, k, t, b, d] =>
     match unhex rm, parseReq m a q k t b, parseDB d with
